@@ -1616,3 +1616,17 @@ M("C09-directive-literal-ignores-escapes", "C09", "src/cppparser/cppPreprocessor
   "      while (c != EOF && c != '\\n' && c != quote_mark) {\n        if (c == '\\\\') {\n          int next_c = get();\n          if (next_c == '\\n') {\n            args += '\\n';\n            c = get();\n            continue;\n          }\n          args += c;\n          if (next_c == EOF) {\n            c = next_c;\n            break;\n          }\n          c = next_c;\n        }\n        args += c;\n        c = get();\n      }",
   "      while (c != EOF && c != '\\n' && c != quote_mark) {\n        args += c;\n        c = get();\n      }",
   expect="R09.9|get_preprocessor_args|literal-branch|escapes")
+
+# ---------------------------------------------------------------- R10.9 (F-C10h)
+M("C10-base-convertibility-inverted", "C10", "src/cppparser/cppStructType.cxx",
+  "    if (base != nullptr && (*di)._vis <= V_public && base->is_convertible_to(other)) {",
+  "    if (base != nullptr && (*di)._vis <= V_public && !base->is_convertible_to(other)) {",
+  expect="R10.9|CPPStructType::is_convertible_to|return-true#")
+
+# ---------------------------------------------------------------- R20.10 (F-C20c)
+M("C20-array-size-of-placeholder-is-one", "C20", "src/interrogatedb/interrogateType.I",
+  "  return is_array() ? _array_size : 0;", "  return _array_size;",
+  expect="R20.10|InterrogateType::get_array_size|neutral-on-placeholder")
+M("C20-benign-array-size-default-zero", "C20", "src/interrogatedb/interrogateType.I",
+  "  return is_array() ? _array_size : 0;", "  return (_flags & F_array) != 0 ? _array_size : 0;",
+  benign=True)
